@@ -4,6 +4,7 @@ import copy
 import datetime
 import itertools
 import json
+import math
 import random
 import re
 
@@ -74,6 +75,9 @@ def same_value(x, y):
         return len(x) == len(y) and all(same_value(p, q) for p, q in zip(x, y))
     if tx == 'object':
         return sorted(x) == sorted(y) and all(same_value(x[k], y[k]) for k in x)
+    if tx == 'number' and isinstance(x, float) and isinstance(y, float) and x == 0 and y == 0:
+        # the sign of a float zero is observable ('' + -0.0 is "-0", 1 / x, atan2): 0.0 and -0.0 are not the same result
+        return math.copysign(1, x) == math.copysign(1, y)
     return refval.veq(x, y)
 
 
